@@ -1718,7 +1718,8 @@ class Stream(AbstractStream):
                 self.phase = phase
                 imol = other._imol.get_phase(phase)
             else:
-                self.phases = other.phases
+                self._imol = self._imol.blank(phases[0], self.chemicals)
+                self.phases = phases
                 imol = other._imol
         else:
             imol = other._imol
